@@ -39,6 +39,10 @@ func anyHeight(tag string) (types.Height, bool) {
 // VerifC13ClientGenesis: export the client module's state, validate it, import it into an empty store, compare, re-export.
 func VerifC13ClientGenesis() {
 	rt.Opt("structured-keys")
+	rt.RegisterInterfaces(types.RegisterInterfaces)
+	rt.RegisterInterfaces(tsstypes.RegisterInterfaces)
+	rt.RegisterInterfaces(tmtypes.RegisterInterfaces)
+	rt.RegisterInterfaces(ethtypes.RegisterInterfaces)
 	k := genesisKeeper()
 	src := rt.EmptyCtx()
 	chain := "chain-a"
